@@ -31,6 +31,10 @@ type RefRun struct {
 	TapToReal   func(b []byte) // bytes flowing from the reference peer to the real party
 	TapFromReal func(b []byte) // bytes flowing from the real party to the reference peer
 	GuardReal   bool           // recover panics of Real (library-call semantics)
+	// RawRef, if set, runs instead of Ref directly on the endpoint (used to
+	// put a second real party, e.g. the real client, into the "ref" slot; its
+	// panics are recovered and reported in Panic).
+	RawRef func(ctx context.Context, end *kernel.End) error
 }
 
 type RefResult struct {
@@ -96,12 +100,16 @@ func RunWithRef(t *testing.T, rr *RefRun) (res *RefResult) {
 			}
 			realParty = sim.Go("real", fn, realEnd)
 		}
-		refParty := sim.Go("ref", func() error {
+		refFn := func() error {
 			w := refproto.NewWire(refEnd, refEnd)
 			err := rr.Ref(w)
 			w.Flush()
 			return err
-		}, refEnd)
+		}
+		if rr.RawRef != nil {
+			refFn = guard("client", &realPanic, func() error { return rr.RawRef(ctx, refEnd) })
+		}
+		refParty := sim.Go("ref", refFn, refEnd)
 		for _, f := range rr.Faults {
 			pipe := refEnd.WPipe() // Dir 0: ref → real
 			if f.Dir == 1 {
